@@ -779,7 +779,7 @@ def run_check(modname, argv=None):
         "violations": len(violations),
     }
     EVIDENCE_DIR.mkdir(parents=True, exist_ok=True)
-    (EVIDENCE_DIR / f"{pid}.json").write_text(json.dumps(ev, indent=1, sort_keys=True, default=str))
+    (EVIDENCE_DIR / f"{getattr(mod, 'EVIDENCE_NAME', pid)}.json").write_text(json.dumps(ev, indent=1, sort_keys=True, default=str))
 
     for l in known_lines:
         print(l)
